@@ -7,7 +7,7 @@
      C12_sound    : estimate spec = OK (true, out) -> percentages of out sum to 100 /\ user values preserved
      C12_complete : determined spec -> estimate spec = OK (true, solution spec)                     *)
 From Coq Require Import List ZArith QArith Qabs Bool String.
-From GBS Require Import Model.PyStr Model.Num Model.Bond Model.Sys Proofs.SysP.
+From GBS Require Import Model.PyStr Model.Num Model.Bond Model.Sys Proofs.SysP Src.SrcSys Proofs.SysSrcP.
 Import ListNotations.
 Open Scope Q_scope.
 
@@ -35,6 +35,26 @@ Theorem C12_rejects_over_100 : forall cs smw,
   exists m, estimate cs smw = Err ERuntime m.
 Proof. exact estimate_rejects_over_100. Qed.
 Print Assumptions C12_rejects_over_100.
+
+(* tie T: the bookkeeping written over the decision expressions REGENERATED from system.py / mixture.py (Src/SrcSys.v; the statement
+   skeleton is checked by the translator) is the hand model the theorems above and below are about *)
+Theorem C12_model_is_source : forall cs smw, estimate_src cs smw = estimate cs smw.
+Proof. exact estimate_is_source. Qed.
+Print Assumptions C12_model_is_source.
+
+Theorem C12_setters_are_source : forall m x, set_rel_src m x = set_rel m x /\ set_sys_src m x = set_sys m x.
+Proof. intros m x. split; [apply set_rel_is_source|apply set_sys_is_source]. Qed.
+Print Assumptions C12_setters_are_source.
+
+(* hence the rejection theorem holds of the function built from the source's own expressions *)
+Theorem C12_source_rejects_bad_percent_sum : forall cs smw,
+  List.length (somes (map rel_known_src cs)) = List.length cs ->
+  (1 # 1000000) < Qabs (sumq (somes (map rel_known_src cs)) - 100) ->
+  exists m, estimate_src cs smw = Err ERuntime m.
+Proof.
+  intros cs smw. rewrite (map_ext _ _ rel_known_is_source), estimate_is_source. apply estimate_rejects_bad_sum.
+Qed.
+Print Assumptions C12_source_rejects_bad_percent_sum.
 
 Theorem C12_sound_refuted :
   exists cs smw out, estimate cs smw = OK (true, out) /\ ~ sumq (rels out) == 100.
